@@ -1,5 +1,6 @@
 """C09 - Concatenation, padding, diag, mode products and TT<->TTM conversion are exact."""
 import numpy as np
+from fractions import Fraction
 import ttgen, expr, coqrun, exprcheck
 from expr import Lit3, Lit4, Dense, Scal, Op
 
@@ -34,6 +35,9 @@ def gen_case(rng, car):
         k = rng.randint(1, d)
         pads = [[rng.choice([0, 0, 1, 2]), rng.choice([0, 1, 2, 3])] for _ in range(k)]
         v = rng.choice([0, 0, 2, -3, 1])
+        if not cplx and rng.random() < 0.25:       # a fill value with ~30 significant bits (exact in float64 only)
+            c = expr.wide_dyadic(rng)
+            return Op("OPad", [x, Scal("float", c, coq_value=Fraction(c))], [[0, d]] + pads), "pad:fill-wide", coqrun.QC
         return Op("OPad", [x, Scal(rng.choice(["int", "float"]), v)], [[0, d]] + pads), "pad:" + ("zero" if v == 0 else "fill"), None
     if r < 0.56:                                   # pad (operator)
         A = gen_ttm(rng, cplx)
@@ -41,6 +45,9 @@ def gen_case(rng, car):
         k = rng.randint(1, d)
         pads = [[rng.choice([0, 1, 2]), rng.choice([0, 1, 2])] for _ in range(k)]
         v = rng.choice([0, 2, -3, 1])
+        if not cplx and rng.random() < 0.3:
+            c = expr.wide_dyadic(rng)
+            return Op("OPad", [A, Scal("float", c, coq_value=Fraction(c))], [[1, d]] + pads), "pad-ttm:fill-wide", coqrun.QC
         return Op("OPad", [A, Scal(rng.choice(["int", "float"]), v)], [[1, d]] + pads), "pad-ttm:" + ("zero" if v == 0 else "fill"), None
     if r < 0.74:                                   # mprod: one mode (tensor argument) or a list (repeated modes allowed)
         x = gen_tt(rng, cplx)
@@ -78,6 +85,20 @@ def gen_case(rng, car):
         if isinstance(x, Lit4): return Op("OConj", [Op("OTr", [inner], [[len(x.cores)]])]), "conj-t-conj", None
         return Op("OConj", [Op("OToTTM", [inner])]), "conj-to_ttm-conj", None
     return Op("OClone", [gen_tt(rng, cplx) if rng.random() < 0.6 else gen_ttm(rng, cplx)]), "clone", None
+
+def evaluate(e, dtype):
+    """dense equivalence; for clone additionally: the copy shares no storage with its source (writing into one must not reach the other)"""
+    oi, fails = exprcheck.dense_equiv(e, dtype)
+    if e.name == "OClone" and not fails:
+        try:
+            src = e.args[0].impl([], dtype)
+            cp = src.clone()
+            ps = set(c.untyped_storage().data_ptr() for c in src.cores)
+            if any(c.untyped_storage().data_ptr() in ps for c in cp.cores): fails.append("clone() shares storage with its source")
+            if cp.cores is src.cores: fails.append("clone() returns the source's own core list")
+        except Exception as ex:
+            fails.append("clone storage check raises %s" % type(ex).__name__)
+    return oi, fails
 
 def nontrivial(e, cat):
     return any(isinstance(a, (Lit3, Lit4)) and any(c.shape[-1] > 1 for c in a.cores[:-1]) for a in e.args)
@@ -125,5 +146,5 @@ def run(tier, seed, replay=None):
     import torch
     dtypes = [(torch.float64, coqrun.Z), (torch.complex128, coqrun.ZI), (torch.float64, coqrun.Z), (torch.float32, coqrun.Z)]
     return exprcheck.run(PID, tier, seed, gen_case, 400, 6000, RULE + ("; thorough tier additionally enumerates EVERY small structure of cat, pad (tensors and operators), "
-                         "single mode products, diag and to_ttm" if tier == "thorough" else ""), nontrivial, dtypes,
+                         "single mode products, diag and to_ttm" if tier == "thorough" else ""), nontrivial, dtypes, evaluate=evaluate,
                          extra_cases=exhaustive_structures if tier == "thorough" else None)
